@@ -241,7 +241,7 @@ impl<'a> Tokinizer<'a> {
 
         let mut operator_required = false;
 
-        if let TokenType::Operator(_) = self.tokens[index].deref() {
+        if let TokenType::Operator('+') | TokenType::Operator('-') = self.tokens[index].deref() {
             self.tokens.insert(index, Rc::new(TokenType::Number(0.0, NumberType::Decimal)));
         }
 
